@@ -9,6 +9,8 @@
 
 #include <cstdio>
 
+#include <dispenso/detail/verif_hooks.h>
+
 namespace dispenso {
 
 namespace detail {
@@ -54,9 +56,13 @@ TaskSetBase* parentTaskSet() {
 void TaskSetBase::trySetCurrentException() {
 #if defined(__cpp_exceptions)
   auto status = kUnset;
+  DISPENSO_VERIF_POINT("ts.exc.cas", this);
   if (guardException_.compare_exchange_strong(status, kSetting, std::memory_order_acq_rel)) {
+    DISPENSO_VERIF_POINT("ts.exc.write", this);
     exception_ = std::current_exception();
+    DISPENSO_VERIF_POINT("ts.exc.set.store", this);
     guardException_.store(kSet, std::memory_order_release);
+    DISPENSO_VERIF_POINT("ts.exc.cancel.store", this);
     canceled_.store(true, std::memory_order_release);
   }
 #endif // __cpp_exceptions
@@ -64,12 +70,16 @@ void TaskSetBase::trySetCurrentException() {
 
 inline bool TaskSetBase::testAndResetException() {
 #if defined(__cpp_exceptions)
+  DISPENSO_VERIF_POINT("ts.exc.guard.load", this);
   if (guardException_.load(std::memory_order_acquire) == kSet) {
+    DISPENSO_VERIF_POINT("ts.exc.move", this);
     auto exception = std::move(exception_);
+    DISPENSO_VERIF_POINT("ts.exc.reset.store", this);
     guardException_.store(kUnset, std::memory_order_release);
     std::rethrow_exception(exception);
   }
 #endif // __cpp_exceptions
+  DISPENSO_VERIF_POINT("ts.exc.canceled.load", this);
   return canceled_.load(std::memory_order_acquire);
 }
 
@@ -85,17 +95,24 @@ bool ConcurrentTaskSet::wait() {
   // Work may be in the central queue or in per-thread rings (via proactive
   // wake). Drain each source fully before switching to avoid oscillation.
   size_t startRing = 0;
+  DISPENSO_VERIF_POINT("cts.wait.load", this);
   while (outstandingTaskCount_.load(std::memory_order_acquire)) {
     // Drain central queue
+    DISPENSO_VERIF_POINT("ts.help.central", this);
     while (pool_.tryExecuteNext()) {
+      DISPENSO_VERIF_POINT("ts.help.central", this);
     }
     // Drain rings — work may have been pushed via proactive wake
+    DISPENSO_VERIF_POINT("ts.help.rings", this);
     while (pool_.tryExecuteNextFromRings(startRing)) {
+      DISPENSO_VERIF_POINT("ts.help.rings", this);
     }
     // If neither had work, yield and retry
+    DISPENSO_VERIF_POINT("cts.wait.load2", this);
     if (outstandingTaskCount_.load(std::memory_order_acquire)) {
       std::this_thread::yield();
     }
+    DISPENSO_VERIF_POINT("cts.wait.load", this);
   }
 
   return testAndResetException();
@@ -103,7 +120,9 @@ bool ConcurrentTaskSet::wait() {
 
 bool ConcurrentTaskSet::tryWait(size_t maxToExecute) {
   size_t startRing = 0;
+  DISPENSO_VERIF_POINT("cts.trywait.load", this);
   while (outstandingTaskCount_.load(std::memory_order_acquire) && maxToExecute) {
+    DISPENSO_VERIF_POINT("ts.help.central", this);
     if (pool_.tryExecuteNext()) {
       --maxToExecute;
     } else if (pool_.tryExecuteNextFromRings(startRing)) {
@@ -111,11 +130,13 @@ bool ConcurrentTaskSet::tryWait(size_t maxToExecute) {
     } else {
       break;
     }
+    DISPENSO_VERIF_POINT("cts.trywait.load", this);
   }
 
   // Must check completion prior to checking exceptions, otherwise there could be a case where
   // exceptions are checked, then an exception is propagated, and then we return whether all items
   // have been completed, thus dropping the exception.
+  DISPENSO_VERIF_POINT("cts.trywait.load2", this);
   if (outstandingTaskCount_.load(std::memory_order_acquire)) {
     return false;
   }
@@ -134,19 +155,28 @@ bool TaskSet::wait() {
   // progress could be made without stealing.
 
   // First drain our own producer token (work we enqueued)
+  DISPENSO_VERIF_POINT("ts.help.token", this);
   while (pool_.tryExecuteNextFromProducerToken(token_)) {
+    DISPENSO_VERIF_POINT("ts.help.token", this);
   }
 
   // Then drain central queue, rings, repeat until done.
   size_t startRing = 0;
+  DISPENSO_VERIF_POINT("tsk.wait.load", this);
   while (outstandingTaskCount_.load(std::memory_order_acquire)) {
+    DISPENSO_VERIF_POINT("ts.help.central", this);
     while (pool_.tryExecuteNext()) {
+      DISPENSO_VERIF_POINT("ts.help.central", this);
     }
+    DISPENSO_VERIF_POINT("ts.help.rings", this);
     while (pool_.tryExecuteNextFromRings(startRing)) {
+      DISPENSO_VERIF_POINT("ts.help.rings", this);
     }
+    DISPENSO_VERIF_POINT("tsk.wait.load2", this);
     if (outstandingTaskCount_.load(std::memory_order_acquire)) {
       std::this_thread::yield();
     }
+    DISPENSO_VERIF_POINT("tsk.wait.load", this);
   }
 
   return testAndResetException();
@@ -154,12 +184,15 @@ bool TaskSet::wait() {
 
 bool TaskSet::tryWait(size_t maxToExecute) {
   ssize_t maxToExe = static_cast<ssize_t>(maxToExecute);
+  DISPENSO_VERIF_POINT("tsk.trywait.tload", this);
   while (outstandingTaskCount_.load(std::memory_order_acquire) && maxToExe) {
+    DISPENSO_VERIF_POINT("ts.help.token", this);
     if (pool_.tryExecuteNextFromProducerToken(token_)) {
       --maxToExe;
     } else {
       break;
     }
+    DISPENSO_VERIF_POINT("tsk.trywait.tload", this);
   }
 
   // Must check completion prior to checking exceptions, otherwise there could be a case where
@@ -167,7 +200,9 @@ bool TaskSet::tryWait(size_t maxToExecute) {
   // have been completed, thus dropping the exception.
 
   size_t startRing = 0;
+  DISPENSO_VERIF_POINT("tsk.trywait.load", this);
   while (outstandingTaskCount_.load(std::memory_order_acquire) && maxToExe) {
+    DISPENSO_VERIF_POINT("ts.help.central", this);
     if (pool_.tryExecuteNext()) {
       --maxToExe;
     } else if (pool_.tryExecuteNextFromRings(startRing)) {
@@ -175,8 +210,10 @@ bool TaskSet::tryWait(size_t maxToExecute) {
     } else {
       break;
     }
+    DISPENSO_VERIF_POINT("tsk.trywait.load", this);
   }
 
+  DISPENSO_VERIF_POINT("tsk.trywait.load2", this);
   if (outstandingTaskCount_.load(std::memory_order_acquire)) {
     return false;
   }
